@@ -20,9 +20,9 @@ def oracle(line: str, obs: Obs):
     ident: dict[str, str] = {}             # conn -> host identity after the capabilities exchange
     for ev, lines in obs.blocks:
         t = ev.split(" ")
-        if t[0] in ("rx", "rxcut"):
+        if t[0] in ("rx", "rxcut", "rxn"):
             c = f"c{t[1]}"
-            for d in (t[2:] if t[0] == "rx" else t[3:]):
+            for d in (t[3:] if t[0] == "rxcut" else t[2:]):
                 m = parse_msg(d)
                 if m["R"]:
                     key = (m["cmd"], m["app"], m["hbh"], m["e2e"])
@@ -99,6 +99,23 @@ def scenarios(rng: random.Random, n: int, depth: int) -> list[str]:
             out.append(pre + f" | rxcut 0 {cut} {nodegen.dwr(n(), n())} {nodegen.dwr(n(), n())} | rx 0 {nodegen.dwr(n(), n())}")
             out.append(pre + f" | rxcut 0 {cut} {nodegen.ccr(n(), n())} {nodegen.unk(n(), n(), app=77)} | tick")
             out.append(pre + f" | rxcut 0 {cut} {nodegen.unk(n(), n())} {nodegen.dpr(n(), n())} | tick")
+    # a long-lived connection: an answer of some result-code range (3xxx for a realm not served, 5xxx for a missing AVP, 2xxx),
+    # then more than the statistics window (1000 s) in which watchdogs keep coming but no answer of that range goes out, then
+    # such a request again: one answer each
+    for cfgn in ("basic", "two"):
+        import re as _re
+        longcfg = _re.sub(r";(idle|dwa)=\d+", "", nodegen.CONFIGS[cfgn]).replace("NODE ", "NODE idle=2000;dwa=2000;")
+        pre = longcfg + " | start | acc | rx 0 " + nodegen.cer("peer1.x", "4", n(), n())
+        for mk in (lambda: nodegen.ccr(n(), n(), realm="foreign.realm"), lambda: nodegen.ccr(n(), n(), drop=("sid", "rt")),
+                   lambda: nodegen.unk(n(), n(), app=77)):
+            quiet = " | ".join(f"adv 400 | rx 0 {nodegen.dwr(n(), n())}" for _ in range(3))
+            out.append(pre + f" | rx 0 {mk()} | {quiet} | rx 0 {mk()} | tick | rx 0 {nodegen.dwr(n(), n())}")
+    # reads that pile up while the connection's reader thread is not scheduled: each message its own read, the I/O loop making
+    # its passes back to back, the reader running afterwards (real node only)
+    for cfgn in ("basic", "two"):
+        pre = nodegen.CONFIGS[cfgn] + " | start | acc | rx 0 " + nodegen.cer("peer1.x", "4", n(), n())
+        out.append(pre + f" | rxn 0 {nodegen.dwr(n(), n())} {nodegen.ccr(n(), n())} {nodegen.dwr(n(), n())} | tick")
+        out.append(pre + f" | rxn 0 {nodegen.ccr(n(), n())} {nodegen.ccr(n(), n(), realm='foreign.realm')} | tick | rx 0 {nodegen.dwr(n(), n())}")
     # answers carrying the T flag and the identifiers of a request the node has answered before
     for cfgn in ("basic", "two", "rq"):
         pre = nodegen.CONFIGS[cfgn] + " | start | acc | rx 0 " + nodegen.cer("peer1.x", "4", n(), n())
